@@ -4,7 +4,7 @@
 From Coq Require Import List Arith ZArith Lia Bool.
 Import ListNotations.
 From NS Require Import Base.Res Base.SortDedup Hist.Edges Hist.Histogram Run.RunBase.
-Open Scope Z_scope.
+Local Open Scope Z_scope.
 
 Definition enc_opt_pair (o : option (nat * nat)) : list Z :=
   match o with None => [0] | Some (i, j) => [1; nz i; nz j] end.
